@@ -510,15 +510,19 @@ class PreparedStatementPlanner():
             # executing without values leaves every placeholder unbound
             raise PlanningException("Count of execution parameters don't match prepared statement")
 
-        if params is not None:
+        if params is not None and len(params) != len(stmt.params):
+            raise PlanningException("Count of execution parameters don't match prepared statement")
 
-            if len(params) != len(stmt.params):
-                raise PlanningException("Count of execution parameters don't match prepared statement")
-
-            if len(params) > 0:
-                # bind the values in a copy: the prepared statement (and the caller's tree) keeps its placeholders
-                # and can be executed again with other values
-                query = utils.fill_query_params(copy.deepcopy(query), params)
+        if params:
+            # bind the values in a copy: the prepared statement (and the caller's tree) keeps its placeholders
+            # and can be executed again with other values
+            query = utils.fill_query_params(copy.deepcopy(query), params)
+        elif getattr(stmt, 'unplanned_query', None) is None:
+            # nothing to bind: the tree is planned in place; planning rewrites it (nested selects become
+            # references to step results), so a copy is kept for the next execution
+            stmt.unplanned_query = copy.deepcopy(query)
+        else:
+            query = copy.deepcopy(stmt.unplanned_query)
 
         if (
                 isinstance(query, ast.Select)
